@@ -8,9 +8,14 @@
      C09.ConstructionSucceeds   a valid scene failed to build (exception message logged)
      C09.PointInExpectedVolume  reported label # ExpectedVolume(p), p clear of every surface
 
-   Probes on/near a surface, in an overlap of the input, or claimed by nobody in a unit
-   without background are excluded and COUNTED.  Structural problems (records out of
-   order, Abort, missing Close) reject the trace.
+   Probes in an overlap of the input or claimed by nobody in a unit without background are
+   excluded and counted.  The near-surface exclusion is decided LAZILY: a probe whose
+   reported label equals the expected one needs no excuse (agreeing on or near a surface is
+   more than the property asks); a DISAGREEING probe is a violation unless
+   Solids!NearInScene holds for it (then it is excluded and counted as `near`).  For the
+   record, the middle z-slab of every scene is classified in full (`slab_probes`,
+   `slab_near`): the fraction of probes the property does not quantify over.
+   Structural problems (records out of order, Abort, missing Close) reject the trace.
 
    Records: Scene(scene) Built(ok,msg,names) Probes(iz,lab,fail)* EndScene ... Close *)
 EXTENDS Solids, TLC, Json, IOUtils, SequencesExt
@@ -39,8 +44,8 @@ Classify(rec, i) ==
              ELSE names[rec.lab[i] + 1]
       cls == IF exp = "?overlap" THEN "overlap"
              ELSE IF exp = "?nowhere" THEN "nowhere"
-             ELSE IF NearInScene(sc, 0, P) THEN "near"
-             ELSE IF got = exp THEN "ok" ELSE "bad"
+             ELSE IF got = exp THEN "ok"
+             ELSE IF NearInScene(sc, 0, P) THEN "near" ELSE "bad"
   IN <<cls, exp, got, P>>
 
 Count(res, c) == Cardinality({i \in DOMAIN res : res[i][1] = c})
@@ -49,6 +54,7 @@ Init ==
   /\ l = 1 /\ pc = "idle" /\ sc = <<>> /\ names = <<>> /\ viol = {}
   /\ stat = [scenes |-> 0, built |-> 0, failed_builds |-> 0, probes |-> 0, compared |-> 0,
              near |-> 0, overlap |-> 0, nowhere |-> 0, bad |-> 0, init_failed |-> 0,
+             slab_probes |-> 0, slab_near |-> 0,
              in_exterior |-> 0, in_background |-> 0, in_material |-> 0, in_daughter |-> 0]
 
 TScene ==
@@ -68,8 +74,11 @@ TBuilt ==
           /\ stat' = [stat EXCEPT !.failed_builds = @ + 1]
   /\ UNCHANGED sc
 
-IsDaughterLabel(s) == \E k \in 2..Len(sc.units) : \E m \in 1..Len(s) :
-                         SubSeq(s, m, Len(s)) = "@" \o sc.units[k].name
+\* which kind of volume an (agreed) label names: coverage accounting only
+UnitLabels(k) == {sc.units[k].materials[m].label \o "@" \o sc.units[k].name : m \in DOMAIN sc.units[k].materials}
+                   \cup {sc.units[k].bg \o "@" \o sc.units[k].name}
+IsMaterialLabel(s) == \E m \in DOMAIN sc.units[1].materials : s = sc.units[1].materials[m].label \o "@u0"
+IsDaughterLabel(s) == \E k \in 2..Len(sc.units) : s \in UnitLabels(k)
 
 TProbes ==
   /\ pc = "probes" /\ Rec.e = "Probes"
@@ -81,7 +90,8 @@ TProbes ==
          room == IF have >= MaxNotes THEN 0 ELSE MaxNotes - have
          noted == IF Cardinality(bad) <= room THEN bad
                   ELSE {i \in bad : Cardinality({j \in bad : j <= i}) <= room}
-         okexp(s) == Cardinality({i \in DOMAIN res : res[i][1] = "ok" /\ s[res[i][2]]})
+         full == Rec.iz = sc.grid.n \div 2          \* the slab classified in full
+         slabnear == IF full THEN Cardinality({i \in DOMAIN res : NearInScene(sc, 0, res[i][4])}) ELSE 0
      IN
      /\ viol' = viol \cup {<<"C09.PointInExpectedVolume", sc.id,
                              [p2 |-> <<res[i][4][1], res[i][4][2], res[i][4][3]>>,
@@ -93,8 +103,11 @@ TProbes ==
                              !.nowhere = @ + Count(res, "nowhere"),
                              !.bad = @ + Count(res, "bad"),
                              !.init_failed = @ + Len(Rec.fail),
+                             !.slab_probes = @ + (IF full THEN Len(Rec.lab) ELSE 0),
+                             !.slab_near = @ + slabnear,
                              !.in_exterior = @ + Cardinality({i \in DOMAIN res : res[i][1] = "ok" /\ res[i][2] = "[EXTERIOR]@u0"}),
                              !.in_background = @ + Cardinality({i \in DOMAIN res : res[i][1] = "ok" /\ res[i][2] = sc.units[1].bg \o "@u0"}),
+                             !.in_material = @ + Cardinality({i \in DOMAIN res : res[i][1] = "ok" /\ IsMaterialLabel(res[i][2])}),
                              !.in_daughter = @ + Cardinality({i \in DOMAIN res : res[i][1] = "ok" /\ IsDaughterLabel(res[i][2])})]
   /\ UNCHANGED <<pc, sc, names>>
 
